@@ -2,7 +2,7 @@
    dotted-path resolution. *)
 From Coq Require Import List String Ascii Bool Arith Lia.
 Import ListNotations.
-From Cb Require Import C18.Model C18.Import.
+From Cb Require Import C18.Model C18.Import C18.Init.
 Local Open Scope string_scope.
 Local Open Scope list_scope.
 Opaque bind.
@@ -58,53 +58,77 @@ Proof.
   - now rewrite !lookup_bind_neq.
 Qed.
 
-(* the same step on both sides *)
-Lemma sim_apply : forall o a b, sim a b -> rsim (apply_op a o) (apply_op b o).
+(* an initialiser whose names (and those of every function body it may call) are plain identifiers
+   computes the same value on both sides *)
+Definition expr_ok (e : expr) : Prop := forall g k, In (g, k) (ereads e) -> dotted k = false.
+
+Lemma sim_eval : forall a b p e, sim a b -> expr_ok e -> eval a p e = eval b p e.
 Proof.
-  intros o a b [Hf Hv Hs Hi Ht He Him Hc Hd Hst Hl].
-  destruct o; simpl;
-    try (constructor; simpl; intros; auto using lookup_bind_congr'; congruence).
-  - (* OEnum *) rewrite He. destruct (lookup k (enums b)).
+  intros a b p e [Hf Hv Hs Hi Ht He Him Hc Hd Hst Hl] Hok. apply eval_frame. intros g k Hin.
+  specialize (Hok g k Hin). destruct g; unfold tlookup; f_equal; auto; congruence.
+Qed.
+
+Definition undotted (ks : list name) : list name := filter (fun k => negb (dotted k)) ks.
+
+Lemma lookup_init_undotted : forall ks c v k (m1 m2 : amap (bool * option nat)),
+  dotted k = false -> lookup k m1 = lookup k m2 ->
+  lookup k (bind_all (init_binds ks c v) m1) = lookup k (bind_all (init_binds (undotted ks) c v) m2).
+Proof.
+  induction ks as [|k0 r IH]; intros c v k m1 m2 Hk H; [exact H|].
+  unfold bind_all in *. simpl. destruct (dotted k0) eqn:D; simpl.
+  - apply IH; auto. rewrite lookup_bind_neq; [exact H|]. intro; subst; congruence.
+  - apply IH; auto. now apply lookup_bind_congr'.
+Qed.
+
+(* the same step on both sides *)
+Definition op_ok (o : op) : Prop := match o with OInit _ _ e => expr_ok e | _ => True end.
+
+Definition erase_op (o : op) : list op :=
+  match o with
+  | OInit ks c e => [OInit (undotted ks) c e]
+  | OFunc k _ => if dotted k then [] else [o]
+  | OVar k _ _ => if dotted k then [] else [o]
+  | _ => [o]
+  end.
+Definition erase (ops : list op) : list op := flat_map erase_op ops.
+
+Lemma sim_apply : forall o a b, sim a b -> op_ok o -> rsim (apply_op a o) (run_ops (erase_op o) b).
+Proof.
+  intros o a b H Hok. pose proof H as [Hf Hv Hs Hi Ht He Him Hc Hd Hst Hl].
+  destruct o; cbn [erase_op];
+    try (simpl; constructor; simpl; intros; auto using lookup_bind_congr'; congruence).
+  - (* OFunc *) destruct (dotted k) eqn:D; simpl.
+    + constructor; simpl; intros; auto. rewrite lookup_bind_neq; auto. intro; subst; congruence.
+    + constructor; simpl; intros; auto using lookup_bind_congr'.
+  - (* OVar *) destruct (dotted k) eqn:D; simpl.
+    + constructor; simpl; intros; auto. rewrite lookup_bind_neq; auto. intro; subst; congruence.
+    + constructor; simpl; intros; auto using lookup_bind_congr'.
+  - (* OEnum *) simpl. rewrite He. destruct (lookup k (enums b)).
     + constructor; auto.
     + constructor; simpl; intros; auto; congruence.
   - (* OImpl *)
-  rewrite Him. destruct (has_impl _ _ _).
+    simpl. rewrite Him. destruct (has_impl _ _ _).
     + constructor; simpl; intros; auto; try congruence. apply lookup_bind_all_congr; auto.
     + destruct (find_conflict _ _); [reflexivity|].
       constructor; simpl; intros; auto; try congruence. apply lookup_bind_all_congr; auto.
+  - (* OInit *)
+    simpl in Hok. simpl. rewrite (sim_eval a b 0 e H Hok). destruct (eval b 0 e); [|reflexivity].
+    constructor; simpl; intros; auto. apply lookup_init_undotted; auto.
 Qed.
 
-(* steps only the importing side performs: the qualified bindings *)
-Definition import_only (o : op) : bool :=
-  match o with
-  | OFunc k _ => dotted k
-  | OVar k _ _ => dotted k
-  | _ => false
-  end.
+Lemma run_ops_one : forall o t, run_ops [o] t = apply_op t o.
+Proof. intros. simpl. now destruct (apply_op t o). Qed.
 
-Lemma sim_import_only : forall o a b, import_only o = true -> sim a b ->
-  exists a', apply_op a o = Ok a' /\ sim a' b.
+Lemma sim_run : forall ops a b, sim a b -> Forall op_ok ops -> rsim (run_ops ops a) (run_ops (erase ops) b).
 Proof.
-  intros o a b H [Hf Hv Hs Hi Ht He Him Hc Hd Hst Hl].
-  destruct o; simpl in H; try discriminate; simpl; eexists; (split; [reflexivity|]);
-    constructor; simpl; intros; auto.
-  - rewrite lookup_bind_neq; auto. intro; subst; congruence.
-  - rewrite lookup_bind_neq; auto. intro; subst; congruence.
-Qed.
-
-Definition erase (ops : list op) : list op := filter (fun o => negb (import_only o)) ops.
-
-Lemma sim_run : forall ops a b, sim a b -> rsim (run_ops ops a) (run_ops (erase ops) b).
-Proof.
-  induction ops as [|o ops IH]; intros a b H; simpl; [assumption|].
-  destruct (import_only o) eqn:E; simpl.
-  - destruct (sim_import_only o a b E H) as [a' [-> H']]. now apply IH.
-  - pose proof (sim_apply o a b H) as S.
-    destruct (apply_op a o), (apply_op b o); simpl in S; try tauto. now apply IH.
+  induction ops as [|o ops IH]; intros a b H Hok; simpl; [assumption|].
+  inversion Hok as [|? ? Ho Hr]; subst. unfold erase in *. rewrite run_ops_app.
+  pose proof (sim_apply o a b H Ho) as S.
+  destruct (apply_op a o), (run_ops (erase_op o) b); simpl in S; try tauto. now apply IH.
 Qed.
 
 Lemma erase_app : forall a b, erase (a ++ b) = erase a ++ erase b.
-Proof. intros. unfold erase. apply filter_app. Qed.
+Proof. intros. unfold erase. apply flat_map_app. Qed.
 Lemma erase_flat_map : forall A (f : A -> list op) l, erase (flat_map f l) = flat_map (fun x => erase (f x)) l.
 Proof. induction l; simpl; [reflexivity|]. now rewrite erase_app, IHl. Qed.
 
@@ -117,12 +141,22 @@ Proof.
 Qed.
 Lemma erase_syncs : forall l, erase (flat_map sync_ops l) = flat_map local_impl_ops l.
 Proof. induction l; simpl; [reflexivity|]. now rewrite erase_app, erase_sync, IHl. Qed.
+Lemma sync_ops_ok : forall l, Forall op_ok (flat_map sync_ops l).
+Proof.
+  intros. apply Forall_forall. intros o Ho. apply in_flat_map in Ho. destruct Ho as [d [_ Ho]].
+  unfold sync_ops in Ho. rewrite !in_app_iff in Ho. destruct Ho as [Ho|[Ho|[Ho|Ho]]].
+  - apply in_map_iff in Ho. destruct Ho as [x [<- _]]. exact I.
+  - apply in_map_iff in Ho. destruct Ho as [x [<- _]]. exact I.
+  - destruct (im_dtor d); simpl in Ho; [destruct Ho as [<-|[]]; exact I|tauto].
+  - destruct Ho as [<-|[]]. exact I.
+Qed.
 
-(* side conditions: declared names are identifiers, a const has an initialiser *)
+(* side conditions: declared names are identifiers, a const has an initialiser, initialisers use
+   plain (unqualified) names only *)
 Definition decl_ok (d : decl) : Prop :=
   match d with
   | DFunc n _ => dotted n = false
-  | DVar n c init => dotted n = false /\ (c = true -> init <> None)
+  | DVar n c init => dotted n = false /\ (c = true -> init <> None) /\ (forall e, init = Some e -> expr_ok e)
   | _ => True
   end.
 Definition names_ok (fs : fsys) : Prop :=
@@ -134,8 +168,16 @@ Proof.
   intros p [|] d H; [|reflexivity]. specialize (H eq_refl).
   destruct d; simpl in *; unfold erase; simpl; try reflexivity.
   - rewrite H, qualified_dotted. reflexivity.
-  - destruct H as [H1 H2]. destruct is_const, init; simpl; rewrite ?H1, ?qualified_dotted; try reflexivity.
+  - destruct H as [H1 [H2 H3]]. destruct is_const, init; simpl; unfold undotted; simpl;
+      rewrite ?H1, ?qualified_dotted; try reflexivity.
     exfalso. now apply H2.
+Qed.
+
+Lemma import_stmt_ops_ok : forall p e d, (e = true -> decl_ok d) -> Forall op_ok (import_stmt_ops p (SDecl e d)).
+Proof.
+  intros p [|] d H; [|constructor]. specialize (H eq_refl).
+  destruct d; simpl in *; repeat constructor.
+  destruct H as [H1 [H2 H3]]. destruct is_const, init; repeat constructor; simpl; auto.
 Qed.
 
 Lemma sim_stmts : forall imp inl p,
@@ -147,8 +189,9 @@ Proof.
   destruct s as [q|e d]; cbn [run_stmts inline_stmts].
   - pose proof (Hi a b q H) as S. destruct (imp a q), (inl b q); simpl in S; try tauto.
     apply IH; auto. intros. apply Hok. now right.
-  - pose proof (sim_run (import_stmt_ops p (SDecl e d)) a b H) as S.
-    rewrite erase_import_stmt in S by (intros ->; apply Hok; now left).
+  - assert (Hd : e = true -> decl_ok d) by (intros ->; apply Hok; now left).
+    pose proof (sim_run (import_stmt_ops p (SDecl e d)) a b H (import_stmt_ops_ok p e d Hd)) as S.
+    rewrite erase_import_stmt in S by exact Hd.
     destruct (run_ops (import_stmt_ops p (SDecl e d)) a), (run_ops (inline_stmt_ops (SDecl e d)) b);
       simpl in S; try tauto.
     apply IH; auto. intros. apply Hok. now right.
@@ -166,7 +209,7 @@ Proof.
   pose proof (sim_stmts (handle_import f pf fs) (handle_inline f pf fs) p IH m _ _ (sim_mark p a b H)
                 (fun d Hd => Hok p m d R Hd)) as S.
   destruct (run_stmts _ _ _ _), (inline_stmts _ _ _); simpl in S; try tauto.
-  pose proof (sim_run (flat_map sync_ops (parser_impls pf fs m)) _ _ S) as S2.
+  pose proof (sim_run (flat_map sync_ops (parser_impls pf fs m)) _ _ S (sync_ops_ok _)) as S2.
   rewrite erase_syncs in S2. exact S2.
 Qed.
 
